@@ -96,7 +96,7 @@ def gen_svc(rng, name=None, type_=None):
         rng.shuffle(addrs)
     return {"type": t, "name": name, "server": rng.choice(HOSTS), "port": rng.choice([80, 81, 1, 65535]), "weight": rng.choice([0, 0, 1, 7]),
             "priority": rng.choice([0, 0, 1, 7]), "text": rng.choice(TEXTS).hex(), "httl": rng.choice(HOST_TTLS), "ottl": rng.choice(OTHER_TTLS),
-            "addrs": [a.hex() for a in addrs], "ifindex": rng.choice([None, None, None, 3])}
+            "addrs": [a.hex() for a in addrs], "ifindex": rng.choice([None, None, None, 3]), "parsed": rng.random() < 0.2}
 
 
 ARGS = {}   # id(info) -> (info, fields as the *arguments given* say): constructor arguments, then every attribute write
@@ -105,9 +105,16 @@ ARGS = {}   # id(info) -> (info, fields as the *arguments given* say): construct
 def make_info(spec, set_server=True):
     from zeroconf import ServiceInfo
 
+    packed = [bytes.fromhex(a) for a in spec["addrs"]]
+    if spec.get("parsed"):
+        # the other documented way to hand over addresses: text form (`parsed_addresses=`)
+        import socket
+
+        how = {"parsed_addresses": [socket.inet_ntop(socket.AF_INET if len(a) == 4 else socket.AF_INET6, a) for a in packed]}
+    else:
+        how = {"addresses": packed}
     info = ServiceInfo(spec["type"], spec["name"], spec["port"], spec["weight"], spec["priority"], bytes.fromhex(spec["text"]), spec["server"],
-                       host_ttl=spec["httl"], other_ttl=spec["ottl"], addresses=[bytes.fromhex(a) for a in spec["addrs"]],
-                       interface_index=spec.get("ifindex"))
+                       host_ttl=spec["httl"], other_ttl=spec["ottl"], interface_index=spec.get("ifindex"), **how)
     check_alphabet([spec["type"], spec["name"], spec["server"]])
     if set_server:
         info.set_server_if_missing()  # what async_register_service does before registry.async_add
@@ -862,7 +869,14 @@ def exec_wire(ops, seed, v6=False):
                         for i in infos:
                             if i.key in book:
                                 changed.setdefault(i.key, fields(book[i.key]))
-                            futs.append(await zc.async_unregister_service(i))
+                            handle = i
+                            if c.get("copy") and book.get(i.key) is i:
+                                # an equal copy: a new ServiceInfo built from the current values of the registered one
+                                f = fields(i)
+                                handle = make_info({"type": f["type"], "name": f["name"], "server": f["server"], "port": f["port"], "weight": f["weight"],
+                                                    "priority": f["priority"], "text": f["text"].hex(), "httl": f["httl"], "ottl": f["ottl"],
+                                                    "addrs": [a.hex() for a in f["v4"] + f["v6"]], "ifindex": None})
+                            futs.append(await zc.async_unregister_service(handle))
                             book.pop(i.key, None)
                         kinds.append("unregister")
                     else:
@@ -1125,7 +1139,7 @@ def gen_change_history(rng):
             live[nid] = spec
             nid += 1
         else:
-            op["change"] = [{"op": "X", "objs": [i]}]
+            op["change"] = [{"op": "X", "objs": [i], "copy": rng.random() < 0.3}]
             del live[i]
         ops.append(op)
     return ops
